@@ -392,6 +392,80 @@ Definition snapshot_ok (g : globals) : bool :=
   forallb (fun kv => row_ok (snd kv)) (g_nicks g) &&
   forallb (fun kv => row_ok (snd kv)) (g_tables g).
 
+(* -------- vocabulary of the theorems (props/C05.v) -------- *)
+Definition nonrow (kv : string * value) : bool := negb (is_row (snd kv)).
+
+(* the values of a row that reach the dumper *)
+Definition row_dumpable (r : row) : bool :=
+  forallb (fun kv => representable_value (snd kv)) (filter nonrow (r_values r)).
+
+Definition same_map {A} (m1 m2 : smap A) : Prop := forall k, lookup k m1 = lookup k m2.
+
+(* a field after the round trip according to ObjectRow.__getstate__: row-valued fields are gone *)
+Definition field_after (r : row) (f : string) : option value :=
+  match lookup f (r_values r) with
+  | Some v => if is_row v then None else Some v
+  | None => None
+  end.
+
+Definition field_full (r : row) (f : string) : option value := lookup f (r_values r).
+
+(* every name bound before is bound after, to a row of the same table whose fields are given
+   by [keep]; no new names *)
+Definition rows_restored (keep : row -> string -> option value) (m m' : smap row) : Prop :=
+  forall k,
+    match lookup k m with
+    | Some r => exists r', lookup k m' = Some r' /\ r_table r' = r_table r /\
+                           forall f, lookup f (r_values r') = keep r f
+    | None => lookup k m' = None
+    end.
+
+Record restored_gen (keep : row -> string -> option value) (g g' : globals) : Prop := mkRestored {
+  rs_ids : same_map (g_last_used g') (g_last_used g);
+  rs_start : forall t, lookup t (g_start_ids g') = option_map (fun z => z + 1) (lookup t (g_last_used g));
+  rs_nicks : rows_restored keep (g_nicks g) (g_nicks g');
+  rs_tables : rows_restored keep (g_tables g) (g_tables g');
+  rs_nat : same_map (g_nat g') (g_nat g);
+  rs_today : g_today g' = g_today g;
+  rs_deps : g_deps g' = g_deps g;
+  rs_slots : same_map (tr_slots (g_transients g')) (g_nat g);
+  rs_orig : same_map (tr_orig (g_transients g')) (g_last_used g)
+}.
+
+(* full strength: every field with its value and type tag *)
+Definition restored := restored_gen field_full.
+(* what the code guarantees in general: every field that is not a row *)
+Definition restored_scalars := restored_gen field_after.
+
+
+(* -------- the YAML text layer: emitter and parser are parameters -------- *)
+Section YamlTextLayer.
+  Variable text : Type.
+  (* the emitter, given the key-sorted tree of a state whose scalars all have a representer *)
+  Variable yaml_dump : tree -> text.
+  (* yaml.safe_load *)
+  Variable yaml_load : text -> option tree.
+
+  (* save_continuation_yaml *)
+  Definition write_file (g : globals) : result text :=
+    do t <- dump_check g; Ok (yaml_dump t).
+
+  (* load_continuation_yaml *)
+  Definition read_file (txt : text) : result globals :=
+    match yaml_load txt with
+    | Some t => load t
+    | None => Err (Internal "YAMLError")
+    end.
+
+  (* n times: read the file, write it again *)
+  Fixpoint rewrite_chain (n : nat) (txt : text) : result text :=
+    match n with
+    | O => Ok txt
+    | S k => do g <- read_file txt; do txt' <- write_file g; rewrite_chain k txt'
+    end.
+
+End YamlTextLayer.
+
 (* -------- equality tests for the correspondence check -------- *)
 Definition smap_eqb {A} (eqb : A -> A -> bool) (a b : smap A) : bool :=
   list_eqb (fun x y => String.eqb (fst x) (fst y) && eqb (snd x) (snd y)) a b.
